@@ -20,6 +20,12 @@ class HarnessError(Exception):
     """Raised when the harness cannot drive the code (not a property result)."""
 
 
+class FieldMisaligned(HarnessError):
+    """A FakeStruct record was sliced/unpacked across field boundaries or with another format: the reader
+    and the writer disagree about the layout.  Harnesses that compare a writer with a reader catch this and
+    report it as a violation (the real bytes would be mis-read)."""
+
+
 class AssumeFailed(BaseException):
     """Replay mode: the concrete input does not satisfy an in-body assumption."""
 
@@ -412,6 +418,43 @@ class PackedFields(object):
     def __len__(self):
         return self.size
 
+    def _layout(self):
+        """[(byte offset, byte size, code)] of the fields, from the real struct module."""
+        import struct as _s
+        order = self.fmt[0] if self.fmt[:1] in "<>!=@" else ""
+        out = []
+        pos = 0
+        for (code, n) in FakeStruct._fields(self.fmt):
+            f = ("%ds" % n) if code == "s" else code
+            sz = _s.calcsize(order + f)
+            out.append((pos, sz, f))
+            pos += sz
+        return order, out
+
+    def __getitem__(self, key):
+        """Slices that fall on field boundaries give a PackedFields of the covered fields."""
+        if not isinstance(key, slice) or key.step not in (None, 1):
+            raise HarnessError("PackedFields: only plain slices")
+        start = 0 if key.start is None else key.start
+        stop = self.size if key.stop is None else key.stop
+        if start < 0:
+            start = max(0, start + self.size)
+        if stop < 0:
+            stop = max(0, stop + self.size)
+        stop = min(stop, self.size)
+        start = min(start, self.size)
+        order, lay = self._layout()
+        vals, codes = [], []
+        for (pos, sz, f), v in zip(lay, self.values):
+            if start <= pos and pos + sz <= stop:
+                vals.append(v)
+                codes.append(f)
+            elif pos + sz <= start or pos >= stop:
+                continue
+            else:
+                raise FieldMisaligned("PackedFields: slice [%r:%r] splits a field of %r" % (start, stop, self.fmt))
+        return PackedFields(order + "".join(codes), vals, stop - start if stop > start else 0)
+
     def __eq__(self, other):
         return isinstance(other, PackedFields) and self.fmt == other.fmt and self.values == other.values
 
@@ -485,8 +528,10 @@ class FakeStruct(object):
             raise HarnessError("FakeStruct.unpack on %r" % (type(data),))
         if len(data) != cls._real.calcsize(fmt):
             raise cls.error("unpack requires a buffer of %d bytes" % cls._real.calcsize(fmt))
-        if cls._fields(data.fmt) != cls._fields(fmt) or data.fmt.lstrip("<>!=@")[:0] != "":
-            raise HarnessError("FakeStruct: format mismatch %r vs %r" % (data.fmt, fmt))
+        if cls._fields(data.fmt) != cls._fields(fmt):
+            raise FieldMisaligned("FakeStruct: format mismatch %r vs %r" % (data.fmt, fmt))
+        if data.fmt[:1] in "<>!=@" and fmt[:1] in "<>!=@" and data.fmt[0] != fmt[0]:
+            raise FieldMisaligned("FakeStruct: byte order mismatch %r vs %r" % (data.fmt, fmt))
         return tuple(data.values)
 
 
